@@ -73,9 +73,14 @@ Definition leak_of (c : cfg) (st : astate) (nx : N) (o : op) : list N :=
           end
       | None => []
       end
-  | OSplice _ v sb eb pat f _ n _ cl =>
+  | OSplice _ v sb eb pat f rk n wa cl =>
       (* a leaked splice: as a leaked drain, and the replacement values; a splice whose drop is refused
-         (result too long): the rest of the range and the tail behind it *)
+         (result too long): the rest of the range and the tail behind it; a lazily cloning splice whose
+         source is empty panics before the range is touched *)
+      if (match rk, wa with
+          | RLazy src, None => match get_a src st with Some b => (0 <? n) && (length (a_xs b) =? 0)%nat | None => false end
+          | _, _ => false
+          end) then [] else
       match get_a v st with
       | Some a =>
           let xs := a_xs a in
@@ -85,7 +90,9 @@ Definition leak_of (c : cfg) (st : astate) (nx : N) (o : op) : list N :=
               | Some (_, _, i, j) =>
                   let hidden := firstn (j - i) (skipn i xs) ++ skipn (N.to_nat e) xs in
                   match f with
-                  | FinForget => hidden ++ next_ids c nx (N.to_nat n)
+                  | FinForget =>
+                      (* replacement items that own their value leak it with the iterator; lazy clones own nothing *)
+                      hidden ++ (match rk, wa with RLazy _, None => [] | _, _ => next_ids c nx (N.to_nat n) end)
                   | FinDrop =>
                       let new_len := N.of_nat (N.to_nat s) + cl + N.of_nat (length xs - N.to_nat e) in
                       if (usize_max <? new_len)
@@ -624,8 +631,14 @@ Lemma splice_own st nx v sb eb pat f rk n wa cl r D L :
     (vis (s_st r) ++ (D ++ drops (s_evs r)) ++ (L ++ leak_of c st nx (OSplice Erased v sb eb pat f rk n wa cl))).
 Proof.
   intros Hnx Hr0 Hinv.
-  destruct (sp_splice_inv _ _ _ _ _ _ _ _ _ _ _ _ _ Hr0) as (_ & _ & Hr). clear Hr0.
-  unfold sp_splice in Hr. cbn [leak_of].
+  destruct (sp_splice_inv _ _ _ _ _ _ _ _ _ _ _ _ _ Hr0) as (Hrk & _ & Hr). clear Hr0.
+  assert (Hil : (match rk, wa with RLazy _, None => [] | _, _ => next_ids c nx (N.to_nat n) end) = next_ids c nx (N.to_nat n))
+    by (destruct Hrk as [-> | ->]; reflexivity).
+  assert (Hgd : (match rk, wa with
+          | RLazy src, None => match get_a src st with Some b => (0 <? n) && (length (a_xs b) =? 0)%nat | None => false end
+          | _, _ => false
+          end) = false) by (destruct Hrk as [-> | ->]; reflexivity).
+  unfold sp_splice in Hr. cbn [leak_of]. rewrite Hil, Hgd. clear Hil Hgd Hrk.
   destruct (get_a v st) as [a|] eqn:Hg; [|discriminate]. cbv zeta in Hr.
   set (xs := a_xs a) in *.
   set (ts := next_ids c nx (N.to_nat n)) in *.
@@ -666,6 +679,65 @@ Proof.
   - injection Hr as <-. cbn [panic_res s_nx s_st s_evs]. rewrite Hcr, Hdg, drops_map.
     destruct f; perm_count.
 Qed.
+
+Lemma lazy_fill_no_drops srcs : forall ids, drops (sp_lazy_fill_events srcs ids) = [].
+Proof. induction srcs as [|t ts IH]; intros ids; destruct ids as [|x ids]; cbn [sp_lazy_fill_events]; try reflexivity. exact (IH ids). Qed.
+
+Lemma splice_lazy_own st nx v sb eb pat f src n cl r D L :
+  1 <= nx ->
+  sp_splice_lazy c st nx v sb eb pat f src n cl = Some r ->
+  Permutation (created c nx) (vis st ++ D ++ L) ->
+  Permutation (created c (s_nx r))
+    (vis (s_st r) ++ (D ++ drops (s_evs r)) ++ (L ++ leak_of c st nx (OSplice Erased v sb eb pat f (RLazy src) n None cl))).
+Proof.
+  intros Hnx Hr Hinv. unfold sp_splice_lazy in Hr. cbn [leak_of].
+  destruct (Nat.eqb src v); [discriminate|].
+  destruct (get_a v st) as [a|] eqn:Hg; [|discriminate].
+  destruct (get_a src st) as [b|]; [|discriminate]. cbv zeta in Hr.
+  set (xs := a_xs a) in *.
+  pose proof (vis_get_any st v) as Hvis. rewrite Hg in Hvis. cbn [slot_xs] in Hvis. fold xs in Hvis.
+  destruct ((0 <? n) && (length (a_xs b) =? 0)%nat).
+  { injection Hr as <-. cbn [panic_res s_nx s_st s_evs drops flat_map]. perm_count. }
+  destruct (range_of_bounds usize_max (N.of_nat (length xs)) (to_sb sb) (to_sb eb)) as [[sN eN]|] eqn:Erb.
+  - assert (Hb : sN <= eN /\ eN <= N.of_nat (length xs)).
+    { unfold range_of_bounds in Erb.
+      repeat match type of Erb with
+      | context [match ?x with _ => _ end] => destruct x eqn:?; try discriminate
+      | context [if ?x then _ else _] => destruct x eqn:?; try discriminate
+      end.
+      injection Erb as <- <-. match goal with H : (_ && _)%bool = true |- _ => apply andb_prop in H; destruct H as [H1 H2] end.
+      apply N.leb_le in H1, H2. lia. }
+    set (s := N.to_nat sN) in *. set (e := N.to_nat eN) in *.
+    assert (Hse : (s <= e)%nat) by lia. assert (Hel : (e <= length xs)%nat) by lia.
+    destruct (sp_walk xs pat s e) as [[[[rets ds] i] j]|] eqn:Ew; [|discriminate].
+    destruct (sp_walk_perm xs pat s e rets ds i j Hse Hel Ew) as (Hp & Hb1 & Hb2 & Hb3).
+    assert (Hx : Permutation xs (firstn s xs ++ firstn (e - s) (skipn s xs) ++ skipn e xs)).
+    { rewrite <- (firstn_skipn s xs) at 1. apply Permutation_app_head.
+      rewrite (skipn_split_range xs s e Hse) at 1. reflexivity. }
+    pose proof (vis_set_any st v (Some (with_xs a (firstn s xs)))) as H1. cbn [slot_xs with_xs a_xs] in H1.
+    destruct f.
+    + destruct (usize_max <? N.of_nat s + cl + N.of_nat (length xs - e)) eqn:Eov.
+      * injection Hr as <-. cbn [panic_res s_nx s_st s_evs orb].
+        rewrite drops_yielded. perm_count.
+      * destruct (match acap c (a_bk a) with Some cap => cap <? N.of_nat s + cl + N.of_nat (length xs - e) | None => false end) eqn:Ecap.
+        -- injection Hr as <-. cbn [panic_res s_nx s_st s_evs orb].
+           rewrite drops_yielded. perm_count.
+        -- injection Hr as <-. cbn [ok_res s_nx s_st s_evs orb].
+           set (wr := Nat.min (N.to_nat cl) (N.to_nat n)) in *.
+           set (ts := next_ids c nx wr) in *.
+           assert (Hcr : created c (nx + N.of_nat wr) = created c nx ++ ts) by (apply created_add; exact Hnx).
+           rewrite Hcr.
+           pose proof (vis_set_any st v (Some (with_xs a (VecSpec.sp_splice s e ts xs)))) as H2.
+           cbn [slot_xs with_xs a_xs] in H2. unfold VecSpec.sp_splice in *.
+           rewrite !drops_app, drops_yielded, Hdg, !drops_map, lazy_fill_no_drops.
+           assert (Hn : drops (if n <? cl then [ENext] else []) = []) by (destruct (n <? cl); reflexivity).
+           rewrite Hn. perm_count.
+    + injection Hr as <-. cbn [ok_res s_nx s_st s_evs]. rewrite drops_yielded. perm_count.
+  - injection Hr as <-. cbn [panic_res s_nx s_st s_evs drops flat_map].
+    destruct f; perm_count.
+Qed.
+
+
 
 Lemma new_own st nx dst bk r D L :
   sp_new c st nx dst bk = Some r ->
@@ -923,7 +995,9 @@ Proof.
     destruct (idx <? N.of_nat (length (a_xs av))); injection Hr as <-;
       cbn [ok_res panic_res s_nx s_st s_evs leak_of drops flat_map]; perm_count.
   - exact (drain_own st nx v sb eb pat f r D L Hr Hinv).
-  - exact (splice_own st nx v sb eb pat f rk n wrong_at claimed r D L Hnx Hr Hinv).
+  - destruct rk as [| |src]; try exact (splice_own st nx v sb eb pat f _ n wrong_at claimed r D L Hnx Hr Hinv).
+    destruct wrong_at as [wa|]; [exact (splice_own st nx v sb eb pat f _ n _ claimed r D L Hnx Hr Hinv)|].
+    exact (splice_lazy_own st nx v sb eb pat f src n claimed r D L Hnx Hr Hinv).
   - (* OClone *)
     unfold sp_clone in Hr. cbn [leak_of]. destruct (Nat.eqb dst v); [discriminate|].
     destruct (get_a v st) as [av|] eqn:Hg; [|discriminate]. injection Hr as <-.
